@@ -4,6 +4,8 @@
   Model (mirrors pyipmi/interfaces/ipmb.py + the bridging branch of Rmcp._send_and_receive):
     snd <rqSa> <rsSa> <channel> <seq> <tracking> <hex payload>        -> ok <hex> | <error tag>
     brg <routing> <7 hdr fields> <seq> <hex payload>                  -> ok <hex> | <error tag>
+    hist <routing|routing|…> <7 hdr fields> <seq> <hex payload>       -> ok <hex> | <error tag>
+         (ONE Target re-routed through the paths in this order, then the request)
     dec <hex frame>                                                   -> ok <hex> | <error tag>
     rcv <7 hdr fields> <flags> <hex;hex;…>                            -> none | ok <hex> | <error tag>
   Spec (PyIpmi.Spec.Bridges / Spec.Wire, the oracle):
@@ -67,6 +69,10 @@ def handleC09 (line : String) : String :=
   | ["brg", r, a, b, c, d, e, f, g, seq, hx] =>
     match parseRouting r, parseHdr9 [a, b, c, d, e, f, g], seq.toNat?, ofHex hx with
     | some rt, some h, some sq, some p => showBytes9 (encodeBridged rt h p sq)
+    | _, _, _, _ => "bad-op"
+  | ["hist", rs, a, b, c, d, e, f, g, seq, hx] =>
+    match (rs.splitOn "|").mapM parseRouting, parseHdr9 [a, b, c, d, e, f, g], seq.toNat?, ofHex hx with
+    | some paths, some h, some sq, some p => showBytes9 ((({} : Target).reroute paths).request h p sq)
     | _, _, _, _ => "bad-op"
   | ["dec", hx] =>
     match ofHex hx with
